@@ -501,6 +501,19 @@ func (vm *VM) arrayOfPointer(v reflect.Value) reflect.Value {
 	return v
 }
 
+// copyOfValue returns an addressable copy of v if v is a struct or an array,
+// otherwise it returns v. The iteration variables of a range statement hold
+// copies of the elements: assigning to a field or to an element of an
+// iteration variable does not change the ranged value.
+func copyOfValue(v reflect.Value) reflect.Value {
+	if k := v.Kind(); k == reflect.Struct || k == reflect.Array {
+		c := reflect.New(v.Type()).Elem()
+		c.Set(v)
+		return c
+	}
+	return v
+}
+
 func (vm *VM) finalize(regs [][2]int8) {
 	for _, reg := range regs {
 		vm.setFromReflectValue(reg[1], vm.generalIndirect(reg[0]))
